@@ -8,6 +8,7 @@ import Mathlib.Tactic.Ring
 import Mathlib.Tactic.Linarith
 import Mathlib.Tactic.FieldSimp
 import Mathlib.Data.Complex.Basic
+import Mathlib.LinearAlgebra.Matrix.NonsingularInverse
 /-! helper lemmas for C18 -/
 open Matrix
 namespace QM.C18
@@ -506,6 +507,52 @@ theorem calcJMatFixedCb_toM (B : Basis K d) (L : Mat K (d * d) (d * d)) :
 /-- completeness of the basis: every matrix is the sum of its components -/
 def Complete (B : Basis K d) : Prop :=
   ∀ X : Matrix (Fin d) (Fin d) K, X = ∑ a, (X * Bm B a).trace • Bm B a
+
+/-- completeness follows from orthonormality: the `d²×d²` matrix of flattened basis elements is square -/
+theorem complete_of_onh0 (B : Basis K d) (z : Fin (d * d)) (s : K) (hB : ONH0 B z s) : Complete B := by
+  set U : Matrix (Fin (d * d)) (Fin (d * d)) K := Matrix.of fun a r => star (Bf B a r) with hU
+  have h1 : U * Uᴴ = 1 := by
+    ext a b
+    have := hB.orth a b
+    rw [← hB.herm a] at this
+    simp only [Matrix.trace, Matrix.diag_apply, Matrix.mul_apply, Matrix.conjTranspose_apply] at this
+    rw [Finset.sum_comm] at this
+    simp only [Matrix.mul_apply, Matrix.conjTranspose_apply, hU, Matrix.of_apply, star_star, Matrix.one_apply]
+    rw [sum_pairs]
+    simpa [Bf, Bm] using this
+  have h2 : Uᴴ * U = 1 := mul_eq_one_comm.mp h1
+  intro X
+  ext i j
+  have hc : ∀ k l, ∑ a, Bf B a (pr i j) * star (Bf B a (pr k l)) = if pr i j = pr k l then 1 else 0 := by
+    intro k l
+    have := congrFun (congrFun h2 (pr i j)) (pr k l)
+    simpa [Matrix.mul_apply, Matrix.conjTranspose_apply, hU, Matrix.one_apply] using this
+  have hherm : ∀ a k l, Bm B a l k = star (Bm B a k l) := by
+    intro a k l
+    have := congrFun (congrFun (hB.herm a) l) k
+    simpa [Matrix.conjTranspose_apply] using this.symm
+  have hpr : ∀ k l, (pr i j = pr k l) ↔ (i = k ∧ j = l) := fun k l =>
+    ⟨pr_inj, fun h => by rw [h.1, h.2]⟩
+  symm
+  calc (∑ a, (X * Bm B a).trace • Bm B a) i j
+      = ∑ a, ∑ k, ∑ l, X k l * (Bf B a (pr i j) * star (Bf B a (pr k l))) := by
+        simp only [Matrix.sum_apply, Matrix.smul_apply, smul_eq_mul, Matrix.trace, Matrix.diag_apply,
+          Matrix.mul_apply, Finset.sum_mul]
+        refine Finset.sum_congr rfl fun a _ => Finset.sum_congr rfl fun k _ =>
+          Finset.sum_congr rfl fun l _ => ?_
+        simp only [Bf, p1_pr, p2_pr]
+        rw [hherm a k l]
+        simp only [Bm, Mat.toM_apply]
+        ring
+    _ = ∑ k, ∑ l, X k l * ∑ a, (Bf B a (pr i j) * star (Bf B a (pr k l))) := by
+        rw [Finset.sum_comm]
+        refine Finset.sum_congr rfl fun k _ => ?_
+        rw [Finset.sum_comm]
+        refine Finset.sum_congr rfl fun l _ => ?_
+        rw [Finset.mul_sum]
+    _ = X i j := by
+        simp only [hc, hpr, ite_and, mul_ite, mul_one, mul_zero]
+        simp [Finset.sum_ite_eq]
 
 theorem eq_zero_of_toM {m n : Nat} (A : Mat K m n) (h : A.toM = 0) : A = Mat.zero := by
   apply Mat.toM_injective; rw [h, Mat.toM_zero]
